@@ -90,3 +90,45 @@ func HC20_concurrentFormat() {
 		}
 	}
 }
+
+// HC20_freshCache: the probe results belong to the cache, not to the process. A first zero Formatters
+// value serves a request; the set of installed tools then changes (any tool may appear or disappear);
+// a second, fresh zero value serves a request: it must behave according to the tools present *now*
+// (present: the formatter runs once and its failure is reported; absent: success, file untouched), and
+// probe the tool at most once itself.
+func HC20_freshCache() {
+	fm1 := Format(1 + vfChoice("format1", 4))
+	fm2 := Format(1 + vfChoice("format2", 4))
+	file := "/tmp/vf_c20_fresh.out"
+	serve := func(fm Format, round string) {
+		present := vfBool("present" + round)
+		fails := vfBool("runFails" + round)
+		for _, f := range []Format{Go, Dart, TypeScript, Psql} {
+			pr := present
+			if f != fm {
+				pr = vfBool(fmt.Sprint("otherPresent", round, f))
+			}
+			vfExecSet(c20Tools[f], "", pr)
+		}
+		vfExecSet(c20Tools[fm], file, !fails)
+		var cache Formatters
+		err := cache.FormatFile(fm, file)
+		log := vfExecLog()
+		vfAssert(c20Count(log, c20Tools[fm]+"|") <= 1, "C20/each-tool-probed-at-most-once")
+		runs := c20Count(log, c20Tools[fm]+"|"+file)
+		if present {
+			vfAssert(runs == 1, "C20/a-fresh-cache-runs-the-formatter-that-is-present-now")
+			vfAssert((err != nil) == fails, "C20/failing-run-is-reported-successful-run-is-not")
+		} else {
+			vfAssert(runs == 0, "C20/a-fresh-cache-leaves-the-file-untouched-when-the-tool-is-absent-now")
+			vfAssert(err == nil, "C20/absent-tool-request-succeeds")
+		}
+	}
+	serve(fm1, "1")
+	vfExecReset()
+	serve(fm2, "2")
+	vfExecReset()
+	if !vfEngine() {
+		os.Remove(file)
+	}
+}
